@@ -210,6 +210,22 @@ fn end_of(result: Result<Result<Value, Error>, Box<dyn std::any::Any + Send>>) -
     }
 }
 
+/// Host-side change of what the in-memory loader serves (between the snippets of a history): a module
+/// that did not exist appears, or a broken one is repaired. `None` removes the path.
+pub fn set_module(path: &str, text: Option<String>) {
+    MODULES.with(|m| {
+        let mut m = m.borrow_mut();
+        match text {
+            Some(t) => {
+                m.insert(path.to_string(), t);
+            }
+            None => {
+                m.remove(path);
+            }
+        }
+    });
+}
+
 /// A reusable interpreter session (one `Vm`), for C15 histories; `run_source` is a one-snippet session.
 pub struct Session {
     vm: Option<Vm>,
